@@ -30,9 +30,9 @@ Same(o) == \A a \in 2..Len(o.vars) :
 Spec1OK(o) ==
   LET r == Ev(o.ast, o.env)
       v == o.vars[1]
-      cust == SelectSeq(r.ev, LAMBDA x : x.k = "fn" /\ x.name \in DOMAIN o.env.funcs)
+      cust == CustomCalls(r.ev, o.env)
   IN <<OutcomeMatchesX(TopExpect(o.ast, o.env), v.out),
-       r.may \/ (Len(v.events) = Len(r.ev) /\ \A i \in 1..Len(r.ev) : EventMatches(r.ev[i], v.events[i])),
+       r.may \/ (Len(v.events) = Len(Pub(r.ev)) /\ \A i \in 1..Len(Pub(r.ev)) : EventMatches(Pub(r.ev)[i], v.events[i])),
        r.may \/ (Len(v.calls) = Len(cust) /\ \A i \in 1..Len(cust) :
                     /\ v.calls[i].name = cust[i].name /\ Len(v.calls[i].args) = Len(cust[i].args)
                     /\ \A j \in 1..Len(cust[i].args) : ArgMatches(cust[i].args[j], v.calls[i].args[j]))>>
